@@ -2,7 +2,7 @@
 import ast
 
 from ..front import AnalysisError, NotConst, src_of
-from ..values import Const, Sym, Opaque
+from ..values import Const, Sym, Opaque, Obj
 from ..table import ORDER
 from ..session import cval
 from . import common
@@ -138,6 +138,38 @@ def check(prog, rep, tier):
     else:
         rep.ok('R02.c', 'T_idle_hold@Idle', file='yabgp/core/fsm.py', line=common.row_line(rows[0]),
                found='%d path(s) start a connect' % len(rows))
+
+    # a requested close must be recognisable as ours when connectionLost arrives, otherwise the
+    # restart chain of TCP_CLOSED is never entered
+    seen_c = {}
+    for (ev, state), rows in sorted(tab.rows.items()):
+        for r in rows:
+            if not r.closes() or r.poid is None:
+                continue
+            name = 'close-marks-disconnected:%s@%s' % (ev if ev != 'WIRE' else 'WIRE:' + r.wire['cls'], state)
+            tracked = r.field('fsm', 'protocol')
+            poid = tracked.oid if isinstance(tracked, Obj) else r.poid
+            closed_here = set(e[1].split('.')[0] for e in r.closes())
+            ok = True
+            for oid, h in r.st.heap.items():
+                if h.kind == 'inst' and isinstance(h.fields.get('transport'), Obj) and \
+                        h.fields['transport'].oid in closed_here:
+                    d = h.fields.get('disconnected')
+                    if not (isinstance(d, Const) and d.value is True):
+                        ok = False
+            if ok:
+                if name not in seen_c:
+                    seen_c[name] = 'ok'
+            elif seen_c.get(name) != 'bad':
+                seen_c[name] = 'bad'
+                rep.bad('R02.c', name, file=common.row_file(r), line=common.row_line(r), func='BGP.closeConnection',
+                        found='the connection is closed but not marked as closed by us (disconnected stays %s): '
+                              'connectionLost will report a peer failure and skip connection_closed()' % (
+                                  'unset',), expected='disconnected = True with loseConnection()', key=name,
+                        path=r.describe())
+    if seen_c and all(v == 'ok' for v in seen_c.values()):
+        rep.ok('R02.c', 'close-marks-disconnected', file='yabgp/core/protocol.py',
+               found='%d closing cells mark the protocol as disconnected' % len(seen_c))
 
     # ---------------------------------------------------------------- R02.d
     allowed = {'__init__', 'manual_start', 'manual_stop'}
